@@ -2,10 +2,12 @@ package props
 
 import (
 	"bytes"
+	"context"
 	"fmt"
 	"strings"
 	"testing"
 
+	"github.com/bufbuild/protocompile/experimental/incremental"
 	"github.com/bufbuild/protocompile/experimental/report"
 	"github.com/bufbuild/protocompile/experimental/source"
 	"pgregory.net/rapid"
@@ -44,7 +46,13 @@ func c36Build(ds []c36Diag, order []int, keep bool) *report.Report {
 	r := &report.Report{}
 	r.KeepDuplicates = keep
 	for _, i := range order {
-		d := ds[i]
+		c36Emit(r, ds[i])
+	}
+	return r
+}
+
+func c36Emit(r *report.Report, d c36Diag) {
+	{
 		r.Options.Stage = d.Stage
 		var opts []report.DiagnosticOption
 		if d.Tag != "" {
@@ -66,7 +74,6 @@ func c36Build(ds []c36Diag, order []int, keep bool) *report.Report {
 		}
 		r.Levelf(report.Level(d.Level), "%s", d.Message).Apply(opts...)
 	}
-	return r
 }
 
 func c36Render(r *report.Report) []byte { return detBytes(r.ToProto()) }
@@ -103,9 +110,9 @@ func c36Check(c c36Case, r *ev.Rec) error {
 	}
 	// ties: two diagnostics equal on every documented sort key but different elsewhere
 	type k struct {
-		f          string
-		st, s, e   int
-		tag, msg   string
+		f        string
+		st, s, e int
+		tag, msg string
 	}
 	seen := map[k]int{}
 	ties := false
@@ -140,6 +147,14 @@ func c36Gen(t *rapid.T) c36Case {
 	n := 1 + gen.Uniform(t, 6, "n")
 	c := c36Case{Keep: gen.Pct(t, 30, "keep")}
 	for i := 0; i < n; i++ {
+		c.Diags = append(c.Diags, c36GenDiag(t))
+	}
+	c36GenTie(t, &c)
+	return c36GenPerms(t, c, n)
+}
+
+func c36GenDiag(t *rapid.T) c36Diag {
+	{
 		d := c36Diag{Level: gen.Pick(t, []int{2, 2, 3, 4}, "level"), Stage: gen.Pick(t, []int{0, 0, 1, 2}, "stage"),
 			Message: gen.Pick(t, []string{"m1", "m1", "m2", "m3"}, "msg"), Tag: gen.Pick(t, []string{"", "", "t1", "t1", "t2"}, "tag"), Extra: -1}
 		if gen.Pct(t, 85, "span") {
@@ -159,9 +174,13 @@ func c36Gen(t *rapid.T) c36Case {
 		if gen.Pct(t, 20, "help") {
 			d.Help = []string{gen.Pick(t, []string{"h1", "h2"}, "helptext")}
 		}
-		c.Diags = append(c.Diags, d)
+		return d
 	}
-	// a duplicate of an earlier diagnostic that differs only in a field that is not a sort key
+}
+
+// c36GenTie: a duplicate of an earlier diagnostic that differs only in a field that is not a sort key
+func c36GenTie(t *rapid.T, c *c36Case) {
+	n := len(c.Diags)
 	if n >= 2 && gen.Pct(t, 60, "tie") {
 		src := c.Diags[gen.Uniform(t, n-1, "tiesrc")]
 		switch gen.Uniform(t, 4, "tiekind") {
@@ -180,6 +199,9 @@ func c36Gen(t *rapid.T) c36Case {
 		}
 		c.Diags[n-1] = src
 	}
+}
+
+func c36GenPerms(t *rapid.T, c c36Case, n int) c36Case {
 	if n <= 4 {
 		// all permutations
 		var rec func(cur []int, used int)
@@ -277,4 +299,186 @@ func TestC36_CompilerRuns(t *testing.T) {
 			return c
 		},
 		Check: c36CompileCheck})
+}
+
+// ---- (c) the executor's collected report over repeated Runs of synthetic queries ----
+
+type c36ExecStep struct {
+	Roots []int // in the order handed to Run
+	Fresh bool  // start over with a new executor
+	Evict []int // keys evicted before the Run
+}
+
+type c36ExecCase struct {
+	Par      int
+	Keep     bool
+	Children [][]int // DAG: children of node i have larger indices
+	Diags    [][]c36Diag
+	Steps    []c36ExecStep
+}
+
+type c36ExecKey struct {
+	c  *c36ExecCase
+	id int
+}
+
+type c36ExecQuery struct {
+	c  *c36ExecCase
+	id int
+}
+
+func (q c36ExecQuery) Key() any { return c36ExecKey{q.c, q.id} }
+
+func (q c36ExecQuery) Execute(t *incremental.Task) (int, error) {
+	var qs []incremental.Query[int]
+	for _, ch := range q.c.Children[q.id] {
+		qs = append(qs, c36ExecQuery{q.c, ch})
+	}
+	if len(qs) > 0 {
+		if _, err := incremental.Resolve(t, qs...); err != nil {
+			return 0, err
+		}
+	}
+	for _, d := range q.c.Diags[q.id] {
+		c36Emit(t.Report(), d)
+	}
+	return q.id, nil
+}
+
+func c36ExecCheck(c c36ExecCase, r *ev.Rec) error {
+	opts := report.Options{KeepDuplicates: c.Keep}
+	newExec := func() *incremental.Executor {
+		return incremental.New(incremental.WithParallelism(int64(c.Par)), incremental.WithReportOptions(opts))
+	}
+	exec := newExec()
+	memoRuns, dupSeen := 0, false
+	for si, st := range c.Steps {
+		if st.Fresh {
+			exec = newExec()
+		}
+		if len(st.Evict) > 0 {
+			var keys []any
+			for _, id := range st.Evict {
+				keys = append(keys, c36ExecKey{&c, id})
+			}
+			exec.Evict(keys...)
+		}
+		// reference: the diagnostics of every reachable node, canonicalized in one go on a fresh report
+		reach := map[int]bool{}
+		var walk func(i int)
+		walk = func(i int) {
+			if reach[i] {
+				return
+			}
+			reach[i] = true
+			for _, ch := range c.Children[i] {
+				walk(ch)
+			}
+		}
+		for _, id := range st.Roots {
+			walk(id)
+		}
+		want := &report.Report{Options: opts}
+		type dk struct {
+			f, tag string
+			s, e   int
+		}
+		seen := map[dk]bool{}
+		for i := range c.Diags {
+			if !reach[i] {
+				continue
+			}
+			for _, d := range c.Diags[i] {
+				c36Emit(want, d)
+				if d.Tag != "" && d.File >= 0 {
+					k := dk{c36Files[d.File].Path(), d.Tag, d.Start, d.End}
+					dupSeen = dupSeen || seen[k]
+					seen[k] = true
+				}
+			}
+		}
+		want.Options = opts // c36Emit sets the stage on the report's options
+		want.Canonicalize()
+		var qs []incremental.Query[int]
+		for _, id := range st.Roots {
+			qs = append(qs, c36ExecQuery{&c, id})
+		}
+		_, got, err := incremental.Run(context.Background(), exec, qs...)
+		if err != nil {
+			return fmt.Errorf("step %d: Run failed: %v", si, err)
+		}
+		if !bytes.Equal(c36Render(got), c36Render(want)) {
+			return fmt.Errorf("step %d (roots %v, fresh=%v, evicted %v, parallelism %d): the report of Run differs from the canonicalized diagnostics of the reachable queries:\nRun:\n%sexpected:\n%s", si, st.Roots, st.Fresh, st.Evict, c.Par, c36Show(got), c36Show(want))
+		}
+		if si > 0 && !st.Fresh {
+			memoRuns++
+		}
+	}
+	nt := memoRuns >= 1 && dupSeen
+	var labels []string
+	if dupSeen {
+		labels = append(labels, "tagged-duplicate-among-reachable")
+	}
+	r.Case(ev.JSONFP(c), nt, append(labels, fmt.Sprintf("par=%d", c.Par))...)
+	r.LabelN("runs", len(c.Steps))
+	r.LabelN("runs-on-a-warm-executor", memoRuns)
+	if nt && r.WantSample() {
+		r.Sample(c)
+	}
+	return nil
+}
+
+func TestC36_ExecutorReports(t *testing.T) {
+	ev.Run(t, ev.Spec[c36ExecCase]{ID: "C36", Name: "ExecutorReports", Quick: 1500, Thorough: 60000,
+		Rule: "random DAGs of 1-6 synthetic queries, each reporting 0-3 generated diagnostics (same pools as Canonicalize: tagged duplicates on one span, ties, span-less entries, several stages), often only ONE query reporting at all; a history of 2-6 Runs on one executor (parallelism 1-8, with or without KeepDuplicates) with generated root lists in generated order, repeated roots, evictions and restarts with a fresh executor; oracle after every Run: the serialized report equals the serialized canonicalization of the reachable queries' diagnostics on a fresh report (so it is the same for every order, repetition, schedule and cache state); non-trivial = a Run on a warm executor and a tagged duplicate among the reachable diagnostics; distinct by case",
+		Gen: func(t *rapid.T) c36ExecCase {
+			n := 1 + gen.Uniform(t, 6, "n")
+			c := c36ExecCase{Par: gen.Pick(t, []int{1, 1, 2, 4, 8}, "par"), Keep: gen.Pct(t, 20, "keep")}
+			single := gen.Pct(t, 40, "single-reporter")
+			reporter := gen.Uniform(t, n, "reporter")
+			for i := 0; i < n; i++ {
+				var ch []int
+				for j := i + 1; j < n; j++ {
+					if gen.Pct(t, 45, "edge") {
+						ch = append(ch, j)
+					}
+				}
+				c.Children = append(c.Children, ch)
+				var ds []c36Diag
+				if !single || i == reporter {
+					for k := gen.Uniform(t, 4, "ndiags"); k > 0; k-- {
+						ds = append(ds, c36GenDiag(t))
+					}
+					if len(ds) >= 2 && gen.Pct(t, 60, "dup") {
+						// same tag, same primary span: the shape Canonicalize deduplicates
+						d := ds[0]
+						if d.Tag == "" {
+							d.Tag, ds[0].Tag = "t1", "t1"
+						}
+						if d.File < 0 {
+							d.File, ds[0].File = 0, 0
+						}
+						if gen.Pct(t, 50, "dup-differs") {
+							d.Help = []string{"did you mean x?"}
+						}
+						ds[len(ds)-1] = d
+					}
+				}
+				c.Diags = append(c.Diags, ds)
+			}
+			ns := 2 + gen.Uniform(t, 5, "nsteps")
+			for s := 0; s < ns; s++ {
+				st := c36ExecStep{Fresh: s > 0 && gen.Pct(t, 12, "fresh")}
+				nr := 1 + gen.Uniform(t, min(n, 3), "nroots")
+				for k := 0; k < nr; k++ {
+					st.Roots = append(st.Roots, gen.Pick(t, []int{0, 0, gen.Uniform(t, n, "root")}, "rootpick"))
+				}
+				if s > 0 && gen.Pct(t, 25, "evict") {
+					st.Evict = append(st.Evict, gen.Uniform(t, n, "evictkey"))
+				}
+				c.Steps = append(c.Steps, st)
+			}
+			return c
+		},
+		Check: c36ExecCheck})
 }
